@@ -153,6 +153,8 @@ type TxGen struct {
 	// ExtraActors: vault accounts etc. discovered at run time are not signers.
 	Vaults    []staking.Address
 	vaultInfo map[staking.Address]*vault.Vault
+	// Allow: preconditions of recorded findings that the generator may build (set by the check that owns the finding).
+	Allow map[string]bool
 	// vaultHolders: per vault, the addresses holding an enabled withdraw policy.
 	vaultHolders map[staking.Address][]staking.Address
 	// Profile weights
